@@ -1,7 +1,7 @@
 #!/usr/bin/env python3
 """Systematic self-test of the checks: single-token mutants of /repo.
 
-usage: mutants.py [-j JOBS] [--ids a,b,c | --sample N --seed S] [--json out.json]
+usage: mutants.py [-j JOBS] [--kinds k1,k2] [--ids a,b,c | --sample N --seed S] [--json out.json]
 For every mutation point listed by tools/mutgen (relational/logical operator
 swaps, dropped negations, negated conditions, integer literals ±1, boolean
 literals, continue/break, ++/--, dropped method-call statements) the mutant is
@@ -60,7 +60,7 @@ def one(mid, desc, props):
 
 def main():
     args = sys.argv[1:]
-    jobs, ids, sample, seed, json_out = 8, None, None, 1, None
+    jobs, ids, sample, seed, json_out, kinds = 8, None, None, 1, None, None
     i = 0
     while i < len(args):
         a = args[i]
@@ -74,6 +74,8 @@ def main():
             seed = int(args[i + 1]); i += 2
         elif a == "--json":
             json_out = args[i + 1]; i += 2
+        elif a == "--kinds":
+            kinds = set(args[i + 1].split(",")); i += 2
         else:
             i += 1
     if not os.path.exists(MUTGEN):
@@ -86,6 +88,8 @@ def main():
         if len(parts) >= 4:
             muts[int(parts[0])] = "\t".join(parts[1:])
     todo = sorted(muts)
+    if kinds:
+        todo = [k for k in todo if muts[k].split("\t")[1] in kinds]
     if ids:
         todo = ids
     elif sample:
